@@ -50,6 +50,9 @@ SameVal(s, o) ==
   /\ Chk("projection", HOf(s, o.stream) = o.H /\ ROf(s, o.stream) = o.R /\ TwrOf(s, o.stream) = o.twr)
   /\ Scal(s, o)
 NoThrow(e) == Chk("no-throw", ~Has(e, "threw"))
+\* a valid image that cannot be restored breaks C09 and the family's own property ("x serialization points"): both are named
+NoThrowRestore(e) == IF ~Has(e, "threw") THEN TRUE
+                     ELSE PrintT(<<"REJECT", "C09:restore-no-throw", l>>) /\ PrintT(<<"REJECT", "C16:serialization-point-restorable", l>>) /\ FALSE
 
 TBegin == IsEvent("Begin") /\ obj' = <<>> /\ un' = <<>> /\ blob' = <<>>
 TNew == IsEvent("New") /\ LET e == Log[l] IN New(e.id, e.k) /\ UNCHANGED blob
@@ -72,6 +75,12 @@ TUpdate == IsEvent("Update") /\ UpdateEv(Log[l], Log[l].id)
 \* events of the design-conformance recordings (one sketch, id 0; also replayed through TraceVarOptDesign)
 TDNew == IsEvent("DNew") /\ New(0, Log[l].k) /\ UNCHANGED blob
 TDUpdate == IsEvent("DUpdate") /\ UpdateEv(Log[l], 0)
+\* an update with weight 0 is ignored: nothing observable changes (UpdateIgnored of the contract)
+TUpdateZero == IsEvent("UpdateZero") /\ LET e == Log[l] IN
+  /\ NoThrow(e)
+  /\ Chk("zero-weight-ignored:is_empty", e.empty = (obj[e.id].n = 0))
+  /\ SameVal(e.s, obj[e.id])
+  /\ UpdateIgnored(e.id) /\ UNCHANGED blob
 TUpdateInvalid == IsEvent("UpdateInvalid") /\ LET e == Log[l] IN
   /\ Chk("invalid-weight-refused", e.refused)
   /\ SameVal(e.s, obj[e.id])
@@ -103,7 +112,7 @@ TSer == IsEvent("Ser") /\ LET e == Log[l] IN
   /\ blob' = (e.blob :> [kind |-> "sk", val |-> obj[e.id], img |-> e.img, size |-> e.size]) @@ blob
   /\ UNCHANGED <<obj, un>>
 TDeser == IsEvent("Deser") /\ LET e == Log[l]  b == blob[e.blob] IN
-  /\ NoThrow(e)
+  /\ NoThrowRestore(e)
   /\ SameVal(e.s, b.val)
   /\ Chk("C09:consumed", e.consumed = b.size)
   /\ Chk("C09:reserialize", e.reimg = b.img)
@@ -113,7 +122,7 @@ TSerU == IsEvent("SerU") /\ LET e == Log[l] IN
   /\ blob' = (e.blob :> [kind |-> "un", val |-> un[e.u], img |-> e.img, size |-> e.size]) @@ blob
   /\ UNCHANGED <<obj, un>>
 TDeserU == IsEvent("DeserU") /\ LET e == Log[l]  b == blob[e.blob] IN
-  /\ NoThrow(e)
+  /\ NoThrowRestore(e)
   /\ Chk("C09:consumed", e.consumed = b.size)
   /\ Chk("C09:reserialize", e.reimg = b.img)
   /\ un' = (e.u :> b.val) @@ un /\ UNCHANGED <<obj, blob>>
@@ -161,8 +170,19 @@ TStat == IsEvent("Stat") /\ LET e == Log[l]  tot == SumTo(e.w, Len(e.w)) IN
           /\ Chk("unbiased-subset-sum", Len(es) = e.T /\ Verdict6(SumDevTo(es, truth, e.T), SumSqTo(es, truth, e.T), e.T \div 2 + 1))
   /\ UNCHANGED <<obj, un, blob>>
 
+\* inclusion of the first items arriving after a checkpoint (copy / assignment / restore) of a pure-reservoir sketch:
+\* each of the `arrivals` new items is in the final sample with probability k / (n + arrivals); 6 sigma binomial band + 1
+StatAbs(x) == IF x < 0 THEN 0 - x ELSE x
+TStatIncl == IsEvent("StatIncl") /\ LET e == Log[l]  den == e.n + e.arrivals IN
+  /\ NoThrow(e)
+  /\ Chk("stat-driver-range", e.T <= 2000 /\ e.k <= 16 /\ den <= 64 /\ e.k < e.n)
+  /\ \A h \in 1..Len(e.how) : \A a \in 1..e.arrivals :
+       LET dev == StatAbs(e.counts[h][a] * den - e.T * e.k) IN
+       Chk("inclusion-after-checkpoint", dev <= den \/ (dev - den <= 46340 /\ (dev - den) * (dev - den) <= 36 * e.T * e.k * (den - e.k)))
+  /\ UNCHANGED <<obj, un, blob>>
+
 TInit == obj = <<>> /\ un = <<>> /\ blob = <<>> /\ l = 1
-TNext == TBegin \/ TDNew \/ TDUpdate \/ TNew \/ TNewInvalid \/ TUNewInvalid \/ TUpdate \/ TUpdateInvalid \/ TObs \/ TCopy \/ TReset \/ TDrop
-         \/ TSer \/ TDeser \/ TDeserBad \/ TSerU \/ TDeserU \/ TUNew \/ TUUpdate \/ TUResult \/ TUReset \/ TUCopy \/ TUDrop \/ TStat
+TNext == TBegin \/ TDNew \/ TDUpdate \/ TNew \/ TNewInvalid \/ TUNewInvalid \/ TUpdate \/ TUpdateZero \/ TUpdateInvalid \/ TObs \/ TCopy \/ TReset \/ TDrop
+         \/ TSer \/ TDeser \/ TDeserBad \/ TSerU \/ TDeserU \/ TUNew \/ TUUpdate \/ TUResult \/ TUReset \/ TUCopy \/ TUDrop \/ TStat \/ TStatIncl
 TSpec == TInit /\ [][TNext]_tvars
 ====
